@@ -413,6 +413,8 @@ val branch_cache : (n list * (z * nat)) list
 
 val ring_cache : (n list * ((z * nat) * (n option * n option))) list
 
+val atom_cache_seed : n list list
+
 val smiles_bond_orders2 : (n * z) list
 
 val smiles_stereo_bonds : n list
@@ -504,7 +506,9 @@ val constraint_key : str -> z -> str
 
 val get_bonding_capacity : table -> str -> z -> z res
 
-val bonding_capacity : table -> atom -> z res
+type capfun = str -> z -> z res
+
+val bonding_capacity_c : capfun -> atom -> z res
 
 val invert_chirality : atom -> atom
 
@@ -528,6 +532,9 @@ val match_selfies_atom : str -> sym_fields option
 val sign_of : n -> z
 
 val process_atom_nocache : str -> ((z * n option) * atom) option res
+
+val process_atom_symbol_c :
+  capfun -> str -> (((z * n option) * atom) * z) option res
 
 val process_atom_symbol :
   table -> str -> (((z * n option) * atom) * z) option res
@@ -634,8 +641,8 @@ val is_ring_like : str -> bool
 
 val is_eps_like : str -> bool
 
-val derive :
-  table -> exn option -> nat -> nat -> toks -> dmol -> nat option -> z ->
+val derive_c :
+  capfun -> exn option -> nat -> nat -> toks -> dmol -> nat option -> z ->
   prev_atom -> ringreq list -> attrs -> nat -> (((toks * dmol) * ringreq
   list) * nat) res
 
@@ -670,11 +677,15 @@ val mol_to_smiles : dmol -> (str * amap list) res
 
 val tokenize_all : str -> bool -> (str list * exn option) list
 
-val derive_frags :
-  table -> bool -> (str list * exn option) list -> dmol -> ringreq list ->
+val derive_frags_c :
+  capfun -> bool -> (str list * exn option) list -> dmol -> ringreq list ->
   nat -> (dmol * ringreq list) res
 
+val decode_graph_c : capfun -> str -> bool -> bool -> dmol res
+
 val decode_graph : table -> str -> bool -> bool -> dmol res
+
+val decoder_c : capfun -> str -> bool -> bool -> (str * amap list) res
 
 val decoder : table -> str -> bool -> bool -> (str * amap list) res
 
@@ -1028,9 +1039,9 @@ val ring_bonds_to_selfies : ebond -> ebond -> str res
 val atom_to_selfies : ebond option -> atom -> str res
 
 val bond_constraint_errors :
-  table -> emol -> (atom * attrs) list -> nat -> bool res
+  capfun -> emol -> (atom * attrs) list -> nat -> bool res
 
-val check_bond_constraints : table -> emol -> unit res
+val check_bond_constraints : capfun -> emol -> unit res
 
 val partition_bonds :
   ebond option list -> nat -> ((nat list * (nat * nat) list) * nat list) res
@@ -1070,7 +1081,9 @@ val fragment_to_selfies : emol -> nat -> nat -> (str list * amap list) res
 
 val encode_roots : emol -> nat list -> nat -> (str list * amap list) res
 
-val encode_mol : table -> emol -> bool -> (str * amap list) res
+val encode_mol : capfun -> emol -> bool -> (str * amap list) res
+
+val encoder_c : capfun -> str -> bool -> bool -> (str * amap list) res
 
 val encoder : table -> str -> bool -> bool -> (str * amap list) res
 
@@ -1083,6 +1096,137 @@ type mol_dump = { d_atoms : (atom * attrs) list;
 val dump_mol : emol -> mol_dump
 
 val parse_kekulize : str -> bool -> (mol_dump * mol_dump option res) res
+
+type pyval =
+| VInt of z
+| VOther
+
+type pykey =
+| KStr of str
+| KOther
+
+type obj =
+| ODict of (pykey * pyval) list
+| OSet of str list
+
+type objid = nat
+
+type heap = obj list
+
+val alloc : heap -> obj -> heap * objid
+
+val hget : heap -> objid -> obj option
+
+val hset : heap -> objid -> obj -> heap
+
+val table_of_dict : (pykey * pyval) list -> table
+
+val dict_of_table : table -> (pykey * pyval) list
+
+type lib = { l_heap : heap; l_presets : (str * objid) list;
+             l_current : objid; l_alpha_cache : objid option;
+             l_cap_memo : ((str * z) * z) list; l_atom_cache : str list }
+
+val init_lib : lib
+
+val current_dict : lib -> (pykey * pyval) list
+
+val current_table : lib -> table
+
+val get_preset_constraints : lib -> str -> (lib * objid) res
+
+val get_semantic_constraints : lib -> lib * objid
+
+val is_ascii_digit : n -> bool
+
+val last_sign_pos : str -> nat option
+
+val valid_key : str -> bool
+
+val valid_value : pyval -> bool
+
+val validate_items : (pykey * pyval) list -> unit res
+
+val has_key : str -> (pykey * pyval) list -> bool
+
+type set_arg =
+| ArgName of str
+| ArgObj of objid
+| ArgJunk
+
+val clear_caches : lib -> heap -> objid -> lib
+
+val set_semantic_constraints : lib -> set_arg -> lib res
+
+val bond_prefix_orders : (str * z) list
+
+val add_unique : str -> str list -> str list
+
+val atom_symbols : table -> str list
+
+val fixed_symbols : str list
+
+val compute_alphabet : table -> str list
+
+val get_semantic_robust_alphabet : lib -> lib * objid
+
+val memo_find : str -> z -> ((str * z) * z) list -> z option
+
+val cap_lookup : lib -> str -> z -> z res
+
+type mutation =
+| MSetItem of str * pyval
+| MDelItem of str
+| MAdd of str
+| MClear
+
+val dict_set : (pykey * pyval) list -> str -> pyval -> (pykey * pyval) list
+
+val dict_del : (pykey * pyval) list -> str -> (pykey * pyval) list
+
+val mutate : heap -> objid -> mutation -> heap
+
+type setref =
+| RName of str
+| RHeld of nat
+| RJunk
+
+type op =
+| OpNewDict of (pykey * pyval) list
+| OpSet of setref
+| OpGet
+| OpGetPreset of str
+| OpGetAlphabet
+| OpMutate of nat * mutation
+| OpDecode of str * bool * bool
+| OpEncode of str * bool * bool
+
+type obs =
+| ObsNone
+| ObsErr of exn
+| ObsDict of (pykey * pyval) list
+| ObsSet of str list
+| ObsTrans of (str * amap list) res
+
+type world = { w_lib : lib; w_held : objid list }
+
+val init_world : world
+
+val with_lib : world -> lib -> world
+
+val hold : world -> lib -> objid -> world
+
+val content : lib -> objid -> obs
+
+val memo_after : lib -> (str * z) list -> ((str * z) * z) list
+
+val pairs_of_tokens : str list -> (str * z) list
+
+val after_translation : lib -> str list -> lib
+
+val step : world -> op -> world * obs
+
+val run : world -> op list -> world * obs list
 
 val documented_index_alphabet : str list
 
@@ -1206,7 +1350,7 @@ val removeN : n -> (n * 'a1) list -> (n * 'a1) list
 
 val default_order : satom -> satom -> z
 
-val step : rstate -> stok -> rstate option
+val step0 : rstate -> stok -> rstate option
 
 val steps : rstate -> stok list -> rstate option
 
